@@ -1,7 +1,7 @@
 (** C02 — queue hand-off fidelity: message and envelope reach qmail-queue unaltered.
     Statements only; proofs in Proofs/DataProofs.v, SessionProofs.v, TraceProofs.v. *)
 From Qv Require Import Common.Bytes Gen.GenNetio Gen.GenSession Model.NetRead Model.Session Model.Trace
-  Spec.LineSpec Spec.SessionSpec Proofs.NetReadProofs Proofs.DataProofs Proofs.SessionProofs Proofs.TraceProofs.
+  Spec.LineSpec Spec.SessionSpec Proofs.NetReadProofs Proofs.DataProofs Proofs.SessionProofs Proofs.TraceProofs Proofs.HandoffMsg.
 
 (** Message: when smtp_data reaches the terminating dot ([D_eod]), what was written to qmail-queue is the
     trace header followed by exactly the client's data lines [seen], in order, each with CRLF turned into LF and
@@ -103,6 +103,20 @@ Proof.
 Qed.
 Print Assumptions C02_submission_partial.
 
+(** The whole session: EVERY hand-off of every session, for all oracles, client byte streams and segmentations, is an
+    envelope F<f>NUL... (written from the server's sender [f] and recipient list [rc]; C02_envelope says they are the open
+    transaction) together with a message that is a trace header followed by the client's data lines [seen] of that DATA
+    command - on the submission port ([o_submission]) with the missing ones of Date, From, Message-Id added behind the last
+    header line, the From field carrying that same sender [f]; on every other port with nothing added ([queued_off]).
+    [par_s o f] = (submission mode of the session, date, f, time stamp, msgidhost). *)
+Theorem C02_handoff_message : forall o chunks env msg, In (Handoff env msg) (run_session o chunks) ->
+  exists f rc trace seen,
+    env = envelope (o_liphost o) f rc
+    /\ msg = trace ++ queued (par_s o f) seen
+    /\ Forall data_line seen.
+Proof. exact session_handoff_message. Qed.
+Print Assumptions C02_handoff_message.
+
 (** the checker that judges the message of every hand-off of the IMPLEMENTATION in the correspondence runs (the property
     as stated: [queued_full]) accepts the model on every port other than 587, and on 587 outside the class above *)
 Theorem C02_message_checker_sound : forall fuel o dc r trace msg sz seen r',
@@ -134,6 +148,21 @@ Theorem C02_trace_spf_none : forall heloname dom, no_crlf_b heloname = true -> n
   exists l, spf_none_field heloname dom = l ++ [LF] /\ no_crlf_b l = true.
 Proof. exact spf_none_field_shape. Qed.
 Print Assumptions C02_trace_spf_none.
+
+(** submission port, relay client: Date and Message-Id are missing and added, From is there (upper case) and kept *)
+Example C02_nonvacuous_submission :
+  let o := {| o_helo := fun _ => true;
+              o_addr := fun _ arg => match arg with 60%N :: c :: _ => AP_ok [c] None RLocal | _ => AP_nobracket end;
+              o_ext := fun _ => Ext_ok 0 0 None; o_relay := 1%Z; o_mx := fun _ => 0; o_qq := fun _ => QQ_ok;
+              o_databytes := 0%N; o_liphost := []; o_check2822 := false; o_authperm := false; o_auth := fun _ => Auth_multi; o_trace := fun _ _ _ _ _ _ => [88; 10]%N;
+              o_submission := true; o_subm_date := [100]%N; o_subm_stamp := [49; 46; 50]%N; o_msgidhost := [104]%N |} in
+  filter (fun e => match e with Handoff _ _ => true | _ => false end)
+    (run_session o [ [72;69;76;79;32;120;13;10]; [77;65;73;76;32;70;82;79;77;58;60;97;62;13;10];
+                     [82;67;80;84;32;84;79;58;60;98;62;13;10]; [68;65;84;65;13;10];
+                     [70;82;79;77;58;120;13;10;13;10;104;13;10;46;13;10] ]%N)
+  = [Handoff [70;97;0;84;98;0;0]%N
+       ([88;10] ++ [70;82;79;77;58;120;10] ++ ([68;97;116;101;58;32;100;10] ++ [77;101;115;115;97;103;101;45;73;100;58;32;60;49;46;50;64;104;62;10]) ++ [10;104;10])%N].
+Proof. vm_compute. reflexivity. Qed.
 
 Example C02_nonvacuous :
   let o := {| o_helo := fun _ => true;
